@@ -16,7 +16,8 @@ Builder::build accepts; on every successful trace the datagram handed to the soc
     set_tos(tos) before send_to(pattern, (target, probe.dest_port)); TCP: bind, ttl/tos (IPv4) or hop limit (IPv6) before connect(target, probe.dest_port).
  R6 where the sequence travels: per cell the field the strategy prescribes carries the probe's sequence (ICMP sequence; UDP port; UDP checksum for
     Paris; IP identification or payload length for Dublin) — the encode half of C02.R1.
-Not decided: numerical validity of the checksums (C13); the kernel's handling of IP_HDRINCL.
+C13.R1–R4 (imported): the checksum functions those setters call compute the RFC 1071 checksum (skipped word, accumulator, word loop, fold).
+Not decided: the kernel's handling of IP_HDRINCL; the numerical Paris compensation.
 """
 import re
 
@@ -33,6 +34,9 @@ def run(chk, tier):
     for r, d, fl in (('R1', 'header fields: once each, prescribed provenance', 40), ('R2', 'length consistency and packet size', 40), ('R3', 'checksum last (Paris pair excepted)', 30),
                      ('R4', 'size guards and buffer constants', 8), ('R5', 'socket call discipline', 20), ('R6', 'the sequence travels in the prescribed field', 40)):
         chk.rule(r, d, floor=fl)
+    # the value stored by the checksum setters is the RFC 1071 checksum: the four source-decided facts of C13
+    from ..report import run_sub
+    run_sub(chk, 'c13', 'C13.', {'R1', 'R2', 'R3', 'R4'})
     N = Norm(prog)
     PS = 'net.packet_size'       # symbolic configured packet size (usize::from(self.packet_size.0))
     for k in all_cells():
